@@ -312,4 +312,4 @@ MANIFEST = dict(
                "reproduced in separate streams.",
     technique="Lean 4 proof (invariant over operation histories) + model/implementation correspondence on real folders + differential oracle",
 )
-READY = False
+READY = True
